@@ -96,9 +96,14 @@ def records(tier, seed):
                 out_sum = policy(td0.clone(), env, decode_type=mode, return_sum_log_likelihood=True, **kw)
                 same = torch.equal(out_sum["actions"], actions)
                 ref, masks, forced = reference(policy, env, td0, actions, K if K else 0, "multistart" in mode)
-                ev = None
                 if "multistart" not in mode:
                     ev = policy(td0.clone(), env, actions=actions, return_sum_log_likelihood=False)
+                else:
+                    # every replica re-evaluated as an ordinary (non multi-start) row of its own instance: no batchify,
+                    # no cache regrouping on this path, so a replica that was decoded with another instance's
+                    # embeddings shows up as a log-probability mismatch on the non-forced steps
+                    idx = torch.arange(actions.shape[0]) % B
+                    ev = policy(td0[idx].clone(), env, actions=actions, return_sum_log_likelihood=False)
             for r in range(actions.shape[0]):
                 recs.append({
                     "policy": pname, "env": ename, "mode": mode, "row": r,
